@@ -14,7 +14,7 @@ import z3
 
 from . import terms as tm
 
-RLIMIT = int(os.environ.get("VT_RLIMIT", "40000000"))
+RLIMIT = int(os.environ.get("VT_RLIMIT", "8000000"))
 FEAS_RLIMIT = 4000000
 
 PI_LO = Fraction(3141592653589793, 10**15)
@@ -52,7 +52,7 @@ class Z3Enc:
     def uf(self, name, n):
         k = (name, n)
         if k not in self.ufs:
-            self.ufs[k] = z3.Function(name, *([z3.RealSort()] * (n + 1)))
+            self.ufs[k] = z3.Function(name + ("%d" % n if n != 1 else ""), *([z3.RealSort()] * (n + 1)))
         return self.ufs[k]
 
     def enc(self, root):
@@ -119,20 +119,20 @@ class Z3Enc:
 
     def _encf(self, t, name, a):
         self.has_uf = True
-        f = self.uf(name, len(a) - 1)
+        f = self.uf(name, len(a))
         r = f(*a)
         ax = self.axioms
         if name in ("cos", "sin"):
-            c = self.uf("cos", 0)(a[0])
-            s = self.uf("sin", 0)(a[0])
+            c = self.uf("cos", 1)(a[0])
+            s = self.uf("sin", 1)(a[0])
             ax.append(c * c + s * s == 1)
             ax.append(z3.And(c >= -1, c <= 1, s >= -1, s <= 1))
         elif name == "atan2":
             y, x = a
             pi = self.enc(tm.PI)
             rr = z3.Real("r!%d" % t.id)
-            c = self.uf("cos", 0)(r)
-            s = self.uf("sin", 0)(r)
+            c = self.uf("cos", 1)(r)
+            s = self.uf("sin", 1)(r)
             ax.append(z3.And(rr >= 0, rr * rr == x * x + y * y))
             ax.append(z3.And(r > -pi, r <= pi))
             ax.append(z3.And(rr * c == x, rr * s == y))
@@ -145,13 +145,13 @@ class Z3Enc:
             ax.append(z3.Implies(z3.And(y == 0, x < 0), r == pi))
         elif name == "acos":
             pi = self.enc(tm.PI)
-            c = self.uf("cos", 0)(r)
-            s = self.uf("sin", 0)(r)
+            c = self.uf("cos", 1)(r)
+            s = self.uf("sin", 1)(r)
             ax.append(z3.Implies(z3.And(a[0] >= -1, a[0] <= 1), z3.And(r >= 0, r <= pi, c == a[0], s >= 0, c * c + s * s == 1)))
         elif name == "asin":
             pi = self.enc(tm.PI)
-            c = self.uf("cos", 0)(r)
-            s = self.uf("sin", 0)(r)
+            c = self.uf("cos", 1)(r)
+            s = self.uf("sin", 1)(r)
             ax.append(z3.Implies(z3.And(a[0] >= -1, a[0] <= 1), z3.And(2 * r >= -pi, 2 * r <= pi, s == a[0], c >= 0, c * c + s * s == 1)))
         elif name == "exp":
             ax.append(r > 0)
@@ -198,8 +198,54 @@ def _model_to_env(enc, model, roots):
     return env
 
 
+Z3_CLI = os.environ.get("VT_Z3", "/usr/local/bin/z3-new")
+HARD_TIMEOUT_S = int(os.environ.get("VT_Z3_HARD_TIMEOUT", "40"))
+
+
+def _is_nonlinear(formulas):
+    for t in tm.postorder(formulas):
+        if t.op == "*" and t.args[0].op != "c" and t.args[1].op != "c":
+            return True
+        if t.op == "/" and t.args[1].op != "c":
+            return True
+        if t.op in ("sqrt", "f"):
+            return True
+    return False
+
+
+def _parse_values(txt, names):
+    """parse the answer of (get-value ...) printed with pp.decimal=true"""
+    import re
+
+    env = {}
+    for name in names:
+        m = re.search(r"\(\s*%s\s+(.*?)\)\s*(?:\n|\)$|$)" % re.escape(name), txt, re.S)
+        if not m:
+            env[name] = None
+            continue
+        v = m.group(1).strip().replace("?", "")
+        try:
+            neg = False
+            if v.startswith("(-"):
+                neg = True
+                v = v[2:].strip().rstrip(")").strip()
+            if v.startswith("(/"):
+                a_, b_ = v[2:].strip().rstrip(")").split()
+                val = float(a_) / float(b_)
+            elif v in ("true", "false"):
+                val = v == "true"
+            else:
+                val = float(v)
+            env[name] = -val if neg else val
+        except Exception:
+            env[name] = None
+    return env
+
+
 def check_sat(formulas, rlimit=RLIMIT, want_model=False):
-    """-> ('sat'|'unsat'|'unknown', model_env or None, stats)"""
+    """-> ('sat'|'unsat'|'unknown', model_env or None, stats).  Non-linear queries run in a z3 sub-process
+    (rlimit for determinism + a hard wall-clock kill: in-process nlsat has been seen to ignore rlimit)."""
+    formulas = list(formulas)
     enc = Z3Enc()
     zs = [enc.enc(f) for f in formulas]
     s = _mk_solver(enc, rlimit)
@@ -208,16 +254,32 @@ def check_sat(formulas, rlimit=RLIMIT, want_model=False):
     for z in zs:
         s.add(z)
     t0 = time.time()
+    if _is_nonlinear(formulas) or enc.has_uf:
+        names = []
+        if want_model:
+            for t in tm.postorder(formulas):
+                if t.op == "v":
+                    names.append(t.args[0])
+        txt = "(set-option :rlimit %d)\n" % rlimit + s.to_smt2()
+        if want_model and names:
+            txt += "\n(get-value (%s))\n" % " ".join("|%s|" % n if ("!" in n or "." in n) else n for n in names)
+        try:
+            p = subprocess.run([Z3_CLI, "-in", "pp.decimal=true", "pp.decimal_precision=17", "-T:%d" % HARD_TIMEOUT_S],
+                               input=txt.encode(), stdout=subprocess.PIPE, stderr=subprocess.PIPE, timeout=HARD_TIMEOUT_S + 10)
+            out = p.stdout.decode()
+        except Exception:
+            out = "unknown"
+        dt = time.time() - t0
+        first = out.strip().splitlines()[0].strip() if out.strip() else "unknown"
+        if first == "sat":
+            env = _parse_values(out, names) if want_model else None
+            return "sat", env, (dt, 0, enc, s)
+        if first == "unsat":
+            return "unsat", None, (dt, 0, enc, s)
+        return "unknown", None, (dt, 0, enc, s)
     r = s.check()
     dt = time.time() - t0
     used = 0
-    try:
-        st = s.statistics()
-        for k in st.keys():
-            if k == "rlimit count":
-                used = st.get_key_value(k)
-    except Exception:
-        pass
     if r == z3.sat:
         env = _model_to_env(enc, s.model(), formulas) if want_model else None
         return "sat", env, (dt, used, enc, s)
@@ -227,8 +289,32 @@ def check_sat(formulas, rlimit=RLIMIT, want_model=False):
 
 
 def feasible(hyps):
-    r, _, _ = check_sat(list(hyps), rlimit=FEAS_RLIMIT)
-    return r != "unsat"
+    """False only if the hypotheses are PROVED contradictory (cheap attempts; unknown counts as feasible)"""
+    hyps = list(hyps)
+    try:
+        from . import ring, tower
+
+        hs = [tower.simplify_formula(h) for h in hyps]
+        if any(h is tm.FALSE for h in hs):
+            return False
+        r, _, _ = check_sat(hs, rlimit=FEAS_RLIMIT // 4)
+        if r == "unsat":
+            return False
+        if r == "sat":
+            return True
+        mono = tower.monomial_abstraction(hs)
+        if mono is not None:
+            r, _, _ = check_sat(mono[0] + mono[1], rlimit=FEAS_RLIMIT // 4)
+            if r == "unsat":
+                return False
+        sub = ring.subterm_abstraction(hs, tm.FALSE)
+        if sub is not None:
+            r, _, _ = check_sat(sub[0], rlimit=FEAS_RLIMIT // 4)
+            if r == "unsat":
+                return False
+    except Exception:
+        pass
+    return True
 
 
 def cvc5_check(smt2_text, timeout_s=60):
@@ -249,17 +335,63 @@ def cvc5_check(smt2_text, timeout_s=60):
         return "unknown"
 
 
-def prove(hyps, goal, rlimit=RLIMIT, use_cvc5=True, cvc5_timeout=30):
+def prove(hyps, goal, rlimit=RLIMIT, use_cvc5=True, cvc5_timeout=30, use_abstraction=True):
     """valid(hyps => goal)?  Refutation returns a float model of the free variables."""
     t0 = time.time()
+    if use_abstraction:
+        try:
+            from . import tower
+
+            hs = [tower.simplify_formula(h) for h in hyps]
+            gs = tower.simplify_formula(goal)
+            if gs is tm.TRUE:
+                return Verdict("proved", "tower-nf", None, time.time() - t0, 0)
+            r0, _, (dt0, used0, _e, _s) = check_sat(hs + [tm.not_(gs)], rlimit=rlimit // 4)
+            if r0 == "unsat":
+                return Verdict("proved", "z3+tower-nf", None, time.time() - t0, used0)
+            from . import ring
+
+            mono = tower.monomial_abstraction(hs + [gs])
+            if mono is not None:
+                r0, _, (dt0, used0, _e, _s) = check_sat(mono[0][:-1] + mono[1] + [tm.not_(mono[0][-1])], rlimit=rlimit // 4)
+                if r0 == "unsat":
+                    return Verdict("proved", "z3+tower-nf+monomial-abstraction", None, time.time() - t0, used0)
+            sub = ring.subterm_abstraction(hs, gs)
+            if sub is not None:
+                r0, _, (dt0, used0, _e, _s) = check_sat(sub[0] + [tm.not_(sub[1])], rlimit=rlimit // 4)
+                if r0 == "unsat":
+                    return Verdict("proved", "z3+tower-nf+abstraction", None, time.time() - t0, used0)
+        except Exception:
+            pass
     r, env, (dt, used, enc, s) = check_sat(list(hyps) + [tm.not_(goal)], rlimit=rlimit, want_model=True)
     if r == "unsat":
         return Verdict("proved", "z3", None, dt, used)
     if r == "sat":
         return Verdict("refuted", "z3", env, dt, used)
+    if use_abstraction:
+        try:
+            from . import ring
+
+            sub = ring.subterm_abstraction(list(hyps), goal)
+            if sub is not None:
+                h1, g1, n1 = sub
+                r4, _, (dt4, used4, _e, _s) = check_sat(h1 + [tm.not_(g1)], rlimit=rlimit)
+                if r4 == "unsat":
+                    return Verdict("proved", "z3+subterm-abstraction", None, time.time() - t0, used + used4, "%d abstracted" % n1)
+        except Exception:
+            pass
+        try:
+            from . import ring
+
+            h2, g2, nf = ring.abstract_problem(list(hyps), goal)
+            r3, _, (dt3, used3, _e, _s) = check_sat(h2 + [tm.not_(g2)], rlimit=rlimit)
+            if r3 == "unsat":
+                return Verdict("proved", "z3+factor-abstraction", None, time.time() - t0, used + used3, "%d factors" % nf)
+        except Exception as ex:  # abstraction is optional
+            pass
     if use_cvc5:
         txt = "(set-logic ALL)\n" + s.to_smt2()
         r2 = cvc5_check(txt, cvc5_timeout)
         if r2 == "unsat":
             return Verdict("proved", "cvc5", None, time.time() - t0, used)
-    return Verdict("undecided", "z3", None, time.time() - t0, used, "z3 unknown: %s" % s.reason_unknown())
+    return Verdict("undecided", "z3", None, time.time() - t0, used, "z3 unknown (rlimit %d / hard timeout %ds)" % (rlimit, HARD_TIMEOUT_S))
